@@ -119,21 +119,18 @@ def _keys(repo, rep):
               "used inside its template", construct="render-name",
               detail="%s / %s" % ([src(x) for x in a], [src(x) for x in b]))
     for f in (mac, uim):
-        text = " ".join(src(s) for s in ast.walk(f.node)
-                        if isinstance(s, ast.stmt))
+        text = L.text(f.node)
         rep.check("node.name is None" in text and "'render'" in text,
                   "R09.1", f.qualname, "the whole template is the macro "
                   "named None -> 'render'", construct="render-default",
                   where=L.where(f))
     cook = repo.func("chameleon.template.BaseTemplate.cook")
-    text = " ".join(src(s) for s in ast.walk(cook.node)
-                    if isinstance(s, ast.stmt))
+    text = L.text(cook.node)
     rep.check("setattr(self, '_' + name, function)" in text, "R09.1",
               cook.qualname, "compiled functions are published as _<name>",
               construct="publish", where=L.where(cook))
     gi = repo.func(TPL + "Macros.__getitem__")
-    text = " ".join(src(s) for s in ast.walk(gi.node)
-                    if isinstance(s, ast.stmt))
+    text = L.text(gi.node)
     rep.check("getattr(self.template, '_render_%s' % name)" in text,
               "R09.1", gi.qualname, "public lookup reads _render_<name>",
               construct="public-name", where=L.where(gi))
@@ -265,17 +262,43 @@ def _slots(repo, rep):
     fds = [w for w in A.walk(r.emission) if isinstance(w, A.Py)
            and w.kind == "FunctionDef"]
     ok = False
+    own_stream = False
     if fds:
-        body = A.show(fds[0].f.get("body"), limit=8)
+        fbody = fds[0].f.get("body")
+        inner = list(A.walk(fbody))
         args = A.show(fds[0].f.get("args"), limit=8)
-        ok = "getname = econtext.get_name" in body and \
-            "Child(each(node.slots).node)" in body and \
-            all(p in args for p in ("param('__stream')", "param('econtext')",
-                                    "param('rcontext')"))
+        ok = any(isinstance(w, A.Frag) and
+                 L.frag_find(w, "getname = econtext.get_name")
+                 for w in inner) and \
+            any(isinstance(w, A.Child) and
+                A.show(w) == "Child(each(node.slots).node)" for w in inner) \
+            and all(p in args for p in ("param('__stream')",
+                                        "param('econtext')",
+                                        "param('rcontext')"))
+        # the filler writes to the stream it is called with: the macro may
+        # call it while capturing output (i18n:translate / i18n:name)
+        tcs = [w for w in inner if isinstance(w, A.Internal)
+               and w.kind == "TranslationContext"]
+        for tc in tcs:
+            if len(tc.args) >= 3 and A.show(tc.args[1]) == "None" and \
+                    A.show(tc.args[2]) == "None":
+                first = [w for w in A.walk(tc.args[0])
+                         if isinstance(w, (A.Frag, A.Child))]
+                kid = [i for i, w in enumerate(first)
+                       if isinstance(w, A.Child)]
+                app = [i for i, w in enumerate(first) if isinstance(w, A.Frag)
+                       and L.frag_find(w, "__append = __stream.append")]
+                own_stream = bool(app) and bool(kid) and app[0] < kid[0]
     rep.check(ok, "R09.2", use.qualname, "a filler is a function of (stream, "
               "scope, rcontext) that renders the fill-slot element in the "
               "scope it is given", construct="fill-function",
               where=L.where(use))
+    rep.check(own_stream, "R09.2", use.qualname, "a filler writes to the "
+              "stream it is called with (__append rebound from its own "
+              "__stream parameter, outside the writer's capture context): "
+              "the macro may call it while capturing output for translation",
+              construct="fill-own-stream", where=L.where(use),
+              detail="the filler body uses the enclosing function's __append")
     # what the caller stores in its own scope is taken back after the call
     stores = [i for i, (it, c_, p_) in enumerate(lin.rows)
               if isinstance(it, A.Frag) and
@@ -371,8 +394,7 @@ def _calls(repo, rep):
     rep.check(len(eff) == 1, "R09.3", f.qualname, "a define-macro element is "
               "stored as a macro of its template", construct="macro-store")
     prop = repo.func("chameleon.zpt.program.MacroProgram.macros")
-    text = " ".join(src(s) for s in ast.walk(prop.node)
-                    if isinstance(s, ast.stmt))
+    text = L.text(prop.node)
     rep.check("macros.append((None, nodes.Sequence(self.body)))" in text and
               "nodes.Macro(name, [nodes.Context(node)])" in text, "R09.3",
               prop.qualname, "the template body itself is the macro named "
@@ -395,8 +417,7 @@ def _collector(repo, rep):
               construct="stray-fill-slot", where=L.where(f))
     # index: a fill-slot on an element that itself uses a macro belongs to
     # the enclosing use
-    text = " ".join(src(s) for s in ast.walk(f.node)
-                    if isinstance(s, ast.stmt))
+    text = L.text(f.node)
     rep.check("index = -(1 + int(bool(use_macro or extend_macro)))" in text,
               "R09.4", f.qualname, "a fill-slot on a use-macro element is "
               "collected by the enclosing use", construct="fill-index",
@@ -430,7 +451,7 @@ def _public(repo, rep):
                         not seen_check:
                     ok = False
         # names iterates self.template.__dict__ in a for header
-        text = " ".join(src(s) for s in f.node.body)
+        text = L.text(f.node, body_only=True)
         first = src(f.node.body[0]) if f.node.body else ""
         rep.check(ok and first.endswith("cook_check()") or
                   (ok and "cook_check()" in src(f.node.body[1])
